@@ -134,7 +134,7 @@ def wrapper_obligations(rep):
                 got = _run_real_wrapper(base, direction, offset, xf)
                 exp = _spec_round(Fraction(repr(xf)), base, direction, offset)
                 rep.violation(
-                    f"wrapper:{direction}:{gname}",
+                    f"wrapper:{tag}:{gname}",
                     f"rounding wrapper with {tag}: x={xf!r} gives {got!r}, statutory value {float(exp)!r}",
                     {"obligation": f"R1[{tag}] {gname}", "x": xf, "actual": got, "expected": float(exp), "base": base, "direction": direction, "offset": offset},
                     failing_input_found=abs(got - float(exp)) > abs(float(base)) * 2**-30,
@@ -371,17 +371,25 @@ def offset_reaches_environment(rep):
         if "rounding" in raw:
             raws[p.stem] = raw["rounding"]
     bad = []
+    one = datetime.timedelta(days=1)
     for g, rs in raws.items():
         for fn, spec in rs.items():
-            for d, v in spec.items():
-                if not isinstance(d, datetime.date):
-                    continue
+            keys = sorted(d for d in spec if isinstance(d, datetime.date))
+            # one representative per class of the comparison `key <= date`: every entry date, the
+            # day before it, a day long before the first and long after the last entry
+            probes = sorted({*keys, *[k - one for k in keys], keys[0] - 400 * one, keys[-1] + 4000 * one})
+            for d in probes:
                 n += 1
                 got = _load_rounding_parameters(d, {fn: spec}).get(fn)
-                want = {k: v[k] for k in ("base", "direction", "to_add_after_rounding") if k in v}
+                past = [k for k in keys if k <= d]
+                if past:
+                    v = spec[max(past)]
+                    want = {k: v[k] for k in ("base", "direction", "to_add_after_rounding") if k in v}
+                else:
+                    want = None  # no entry in force: the function must not appear (-> KeyError later)
                 if got != want:
                     bad.append((g, fn, d, got, want))
-    rep.ob(f"R5: loader reproduces base/direction/offset of each of the {n} yaml rounding entries", "refuted" if bad else "discharged", "exhaustive-run", 0, where, "loader")
+    rep.ob(f"R5: loader returns the entry in force (or none) for each of the {n} (function, date class) pairs of the yaml rounding sections", "refuted" if bad else "discharged", "exhaustive-run", 0, where, "loader")
     for g, fn, d, got, want in bad[:5]:
         rep.violation(f"rounding-spec-lost:{g}.{fn}@{d}", f"environment of {d} has rounding spec {got} for {fn}, the parameter file says {want}", {"obligation": "R5", "group": g, "function": fn, "date": str(d), "loaded": got, "yaml": want, "replay": f"set_up_policy_environment('{d}')[0]['{g}']['rounding']['{fn}']"}, True)
 
